@@ -37,6 +37,14 @@ enum Mut {
     PkOther,
     /// keep name‖parent‖data byte-identical but move the name/parent and parent/data boundaries by k bytes
     Shift { k: i8 },
+    /// keep name‖parent‖data byte-identical but move WHOLE fields across slots: the new name length is
+    /// 0 (name slot empty, first 32 bytes become the parent), total-32 (data slot empty, last 32 bytes become the parent),
+    /// old+32 (the old parent joins the name, 32 bytes of data become the parent) or old-32 (the tail of the name becomes
+    /// the parent, the old parent joins the data)
+    Resplit { mode: u8 },
+    /// exchange the contents of two slots: 0 = name<->data (data valid UTF-8), 1 = parent<->data (data 32 bytes),
+    /// 2 = name<->parent (name 32 bytes, parent valid UTF-8), 3 = rotate name->parent->data->name, 4 = the inverse rotation
+    Swap { which: u8 },
     /// (ffi) claimed command id
     ClaimedFlip { pos: u16, xor: u8 },
     /// (ffi) claimed id replaced by the id of another validly signed command
@@ -56,6 +64,8 @@ impl Mut {
             Mut::SigOtherKey => "sig_other_key",
             Mut::PkOther => "other_signer",
             Mut::Shift { .. } => "boundary_shift",
+            Mut::Resplit { .. } => "field_rotation",
+            Mut::Swap { .. } => "field_swap",
             Mut::ClaimedFlip { .. } | Mut::ClaimedOther => "claimed_id",
             Mut::PkFlip { .. } => "pk_bytes",
         }
@@ -186,21 +196,53 @@ fn apply(m: &Mut, st: &mut Inputs, aux: &Aux) -> bool {
             if k == 0 {
                 return false;
             }
-            let mut stream = st.name.as_bytes().to_vec();
-            stream.extend_from_slice(&st.parent);
-            stream.extend_from_slice(&st.data);
             let b1 = st.name.len() as isize + k;
-            if b1 < 0 || (b1 as usize) + 32 > stream.len() {
-                return false;
-            }
-            let b1 = b1 as usize;
-            let Ok(name) = std::str::from_utf8(&stream[..b1]) else {
-                return false;
+            resplit(st, b1)
+        }
+        Mut::Resplit { mode } => {
+            let n = st.name.len() as isize;
+            let total = n + 32 + st.data.len() as isize;
+            let b1 = match mode % 4 {
+                0 => 0,
+                1 => total - 32,
+                2 => n + 32,
+                _ => n - 32,
             };
-            st.name = name.to_string();
-            st.parent.copy_from_slice(&stream[b1..b1 + 32]);
-            st.data = stream[b1 + 32..].to_vec();
-            true
+            resplit(st, b1)
+        }
+        Mut::Swap { which } => {
+            let before = (st.name.clone(), st.parent, st.data.clone());
+            let as_str = |b: &[u8]| std::str::from_utf8(b).ok().map(str::to_string);
+            let as_id = |b: &[u8]| <[u8; 32]>::try_from(b).ok();
+            match which % 5 {
+                0 => {
+                    let Some(n2) = as_str(&st.data) else { return false };
+                    st.data = std::mem::replace(&mut st.name, n2).into_bytes();
+                }
+                1 => {
+                    let Some(p2) = as_id(&st.data) else { return false };
+                    st.data = std::mem::replace(&mut st.parent, p2).to_vec();
+                }
+                2 => {
+                    let (Some(p2), Some(n2)) = (as_id(st.name.as_bytes()), as_str(&st.parent)) else { return false };
+                    st.name = n2;
+                    st.parent = p2;
+                }
+                3 => {
+                    // name -> parent, parent -> data, data -> name
+                    let (Some(p2), Some(n2)) = (as_id(st.name.as_bytes()), as_str(&st.data)) else { return false };
+                    st.data = st.parent.to_vec();
+                    st.parent = p2;
+                    st.name = n2;
+                }
+                _ => {
+                    // data -> parent, parent -> name, name -> data
+                    let (Some(p2), Some(n2)) = (as_id(&st.data), as_str(&st.parent)) else { return false };
+                    st.data = std::mem::replace(&mut st.name, n2).into_bytes();
+                    st.parent = p2;
+                }
+            }
+            before != (st.name.clone(), st.parent, st.data.clone())
         }
         Mut::ClaimedFlip { pos, xor } => flip(&mut st.claimed, *pos, *xor).is_some(),
         Mut::ClaimedOther => {
@@ -209,6 +251,25 @@ fn apply(m: &Mut, st: &mut Inputs, aux: &Aux) -> bool {
         }
         Mut::PkFlip { pos, xor } => flip(&mut st.pk_bytes, *pos, *xor).is_some(),
     }
+}
+
+/// Re-splits the byte stream name‖parent‖data so that the name is its first `b1` bytes, the parent the next 32 and
+/// the data the rest; false when infeasible (out of range, name not UTF-8) or nothing changes.
+fn resplit(st: &mut Inputs, b1: isize) -> bool {
+    let mut stream = st.name.as_bytes().to_vec();
+    stream.extend_from_slice(&st.parent);
+    stream.extend_from_slice(&st.data);
+    if b1 < 0 || (b1 as usize) + 32 > stream.len() || b1 as usize == st.name.len() {
+        return false;
+    }
+    let b1 = b1 as usize;
+    let Ok(name) = std::str::from_utf8(&stream[..b1]) else {
+        return false;
+    };
+    st.name = name.to_string();
+    st.parent.copy_from_slice(&stream[b1..b1 + 32]);
+    st.data = stream[b1 + 32..].to_vec();
+    true
 }
 
 fn cmd<'a>(name: &'a str, parent: &'a CmdId, data: &'a [u8]) -> Cmd<'a> {
@@ -299,6 +360,12 @@ fn check_direct(c: &Case, info: &mut CaseInfo) -> CheckResult {
                 if valid_other {
                     ensure!(r.as_ref().ok() == Some(&id_ok), "valid signature rejected", "other key's own signature: {r:?}");
                     info.label("variant_valid_other_pair");
+                    continue;
+                }
+                // likewise the other command (data + 0x5a) together with its own signature is a valid pair
+                if !st.other_signer && st.sig == aux.sig_other_cmd && st.name == base.name && st.parent == base.parent && st.data == od {
+                    ensure!(r.as_ref().ok() == Some(&id_oc), "valid signature rejected", "other command with its own signature: {r:?}");
+                    info.label("variant_valid_other_cmd_pair");
                     continue;
                 }
                 ensure!(
@@ -487,6 +554,13 @@ fn check_ffi(c: &Case, info: &mut CaseInfo) -> CheckResult {
                 continue;
             }
         }
+        // likewise the other command (data + 0x5a) with its own signature and its own id is a valid triple
+        if eff.as_ref() == Some(&pk) && st.sig == aux.sig_other_cmd && st.claimed == id_oc && st.name == base.name && st.parent == base.parent && st.data == od {
+            let r = ffi_verify(&ffi, &eng, &name2, &st);
+            ensure!(r.is_ok(), "valid signature rejected", "other command with its own signature and id: {r:?}");
+            info.label("variant_valid_other_cmd_pair");
+            continue;
+        }
         let r = ffi_verify(&ffi, &eng, &name2, &st);
         ensure!(
             r.is_err(),
@@ -532,6 +606,7 @@ fn ident_name() -> impl Strategy<Value = String> {
         4 => "[A-Za-z][A-Za-z0-9_]{0,20}",
         1 => "[A-Za-z]",
         1 => "[A-Za-z][A-Za-z0-9_]{40,80}",
+        1 => "[A-Za-z][A-Za-z0-9_]{30,32}",
     ]
 }
 
@@ -542,6 +617,73 @@ fn any_name() -> impl Strategy<Value = String> {
         1 => Just(String::new()),
         1 => "\\PC{0,8}",
     ]
+}
+
+const PRINTABLE: &[u8] = b"ABCDEFGHIJKLMNOPQRSTUVWXYZabcdefghijklmnopqrstuvwxyz0123456789_";
+
+/// Names whose byte length sits on the width of a command id (and twice that), or empty.
+fn edge_name() -> impl Strategy<Value = String> {
+    prop_oneof![
+        3 => Just(String::new()),
+        4 => "[A-Za-z][A-Za-z0-9_]{31}",
+        1 => "[A-Za-z][A-Za-z0-9_]{30}",
+        1 => "[A-Za-z][A-Za-z0-9_]{32}",
+        1 => "[A-Za-z][A-Za-z0-9_]{63}",
+        // 32 bytes, not all ASCII
+        1 => prop::collection::vec(prop::sample::select("abcxyz \u{e9}\u{4e16}\u{1f600}".chars().collect::<Vec<_>>()), 32).prop_map(|cs| {
+            let mut s = String::new();
+            for c in cs {
+                if s.len() + c.len_utf8() <= 32 {
+                    s.push(c);
+                }
+            }
+            while s.len() < 32 {
+                s.push('a');
+            }
+            s
+        }),
+        1 => any_name(),
+    ]
+}
+
+/// Payloads that are empty or as wide as a command id (and one off, and twice that), mostly valid UTF-8.
+fn edge_data() -> impl Strategy<Value = Vec<u8>> {
+    let printable = |n: usize| prop::collection::vec(prop::sample::select(PRINTABLE.to_vec()), n);
+    prop_oneof![
+        3 => Just(Vec::new()),
+        3 => printable(32),
+        1 => printable(31),
+        1 => printable(33),
+        1 => printable(64),
+        1 => prop::collection::vec(any::<u8>(), 32),
+        1 => data(),
+    ]
+}
+
+fn edge_parent() -> impl Strategy<Value = [u8; 32]> {
+    prop_oneof![
+        4 => prop::collection::vec(prop::sample::select(PRINTABLE.to_vec()), 32)
+            .prop_map(|v| { let mut a = [0u8; 32]; a.copy_from_slice(&v); a }),
+        1 => parent(),
+    ]
+}
+
+fn rotation() -> impl Strategy<Value = Mut> {
+    prop_oneof![
+        4 => (0u8..4).prop_map(|mode| Mut::Resplit { mode }),
+        3 => (0u8..5).prop_map(|which| Mut::Swap { which }),
+        2 => prop::sample::select(vec![-33i8, -32, -31, 31, 32, 33, -64, 64, -1, 1]).prop_map(|k| Mut::Shift { k }),
+    ]
+}
+
+fn edge_case(nvar: usize) -> impl Strategy<Value = Case> {
+    let m = || prop_oneof![3 => rotation(), 1 => mutation(false)];
+    let variant = prop_oneof![
+        4 => prop::collection::vec(m(), 1..=1),
+        1 => prop::collection::vec(m(), 2..=3),
+    ];
+    (any::<u64>(), edge_name(), edge_parent(), edge_data(), prop::collection::vec(variant, 2..=nvar))
+        .prop_map(|(seed, name, parent, data, variants)| Case { seed, name, parent, data, variants })
 }
 
 fn parent() -> impl Strategy<Value = [u8; 32]> {
@@ -559,6 +701,7 @@ fn data() -> impl Strategy<Value = Vec<u8>> {
         3 => prop::collection::vec(prop::sample::select(b"abcdefghijklmnopqrstuvwxyz0123456789_".to_vec()), 0..80),
         1 => Just(Vec::new()),
         1 => prop::collection::vec(any::<u8>(), 1000..3000),
+        1 => prop::collection::vec(prop::sample::select(PRINTABLE.to_vec()), 31..=33),
     ]
 }
 
@@ -587,6 +730,8 @@ fn mutation(ffi: bool) -> BoxedStrategy<Mut> {
         1 => any::<u8>().prop_map(|byte| Mut::SigExtend { byte }),
         2 => Just(Mut::PkOther),
         6 => prop_oneof![(-40i8..=40), (-3i8..=3)].prop_map(|k| Mut::Shift { k }),
+        2 => (0u8..4).prop_map(|mode| Mut::Resplit { mode }),
+        1 => (0u8..5).prop_map(|which| Mut::Swap { which }),
     ];
     if ffi {
         prop_oneof![
@@ -622,11 +767,23 @@ pub fn run(ctx: &Ctx) -> ! {
          data 0..3000 B) signed with sign_cmd, then up to 16 single- or 2..3-point modifications of {data flip/insert/remove, \
          name set/char/append/truncate, parent flip/set, signature byte flip/truncate/extend, signature of another command, \
          signature by another key, other verifying key, boundary shift of name|parent|data by -40..40 bytes keeping the \
-         concatenation identical}. Oracle: pristine verifies with the id sign_cmd returned (also after a to_bytes/from_bytes \
+         concatenation identical, whole-field re-splits and slot swaps (see direct_field_rotation)}. Oracle: pristine verifies with the id sign_cmd returned (also after a to_bytes/from_bytes \
          round trip); every modification is rejected (import error or verify_cmd Err); every modified command re-signs to a \
          different id and its signature does not verify the original. non-trivial = >=3 modifications rejected",
         || case(false, 16),
         ctx.pick(30_000, 600_000),
+        check_direct,
+    );
+    rep.explore(
+        "direct_field_rotation",
+        "direct API on width edges: name in {empty, 31/32/33/64-byte identifiers, 32 bytes with multi-byte characters, arbitrary}, \
+         data in {empty, 31/32/33/64 printable bytes, 32 random bytes, arbitrary}, parent mostly printable (so it can become a name); \
+         2..10 modifications drawn 3:1 from whole-field moves {re-split of the unchanged concatenation name|parent|data with the new \
+         name length 0 / total-32 / old+32 / old-32 (a field becomes empty and a whole field slides into the neighbouring slot), \
+         slot swaps name<->data, parent<->data, name<->parent, both 3-cycles, shifts by +-31/32/33/64/1} and the modifications of \
+         part `direct`. Oracle as in `direct`. non-trivial = >=3 modifications rejected",
+        || edge_case(10),
+        ctx.pick(6_000, 120_000),
         check_direct,
     );
     rep.explore(
